@@ -1644,3 +1644,38 @@ OPEN_TYPES_N_INDEF.qual = 'ConstructedPayloadDecoderBase.indefLenValueDecoder'
 OPEN_TYPES_N_INDEF.requires = ['N >= 0', 'eooAllowedInside']
 OPEN_TYPES_N_INDEF.eoo_allowed = True
 CONTRACTS = CONTRACTS + [OPEN_TYPES_N_INDEF]
+
+
+# ---- _createComponent: what every simple payload decoder hands out (the model `create_component` above, discharged) -----------
+def _cc_self(ex, env):
+    def clone(ex2, self, value=NOVALUE, **kw):
+        return Obj('Asn1Value', {'value': value, 'spec': None, 'tagSet': kw.get('tagSet'), 'cloneOf': self}, name='component')
+    return Obj('AbstractSimplePayloadDecoder', {'protoComponent': Obj('Asn1Type', {}, {'clone': clone}, name='protoComponent')}, name='self')
+
+
+def _cc_spec(ex, env):
+    if ex.choose(z3.Bool('spec.given'), 'guided'):
+        def clone(ex2, self, value=NOVALUE, **kw):
+            return Obj('Asn1Value', {'value': value, 'spec': self, 'tagSet': None, 'cloneOf': self}, name='component')
+        return Obj('Asn1Type', {}, {'clone': clone}, name='asn1Spec')
+    return None
+
+
+CREATE_COMPONENT = Contract(
+    id='ber.decoder::AbstractSimplePayloadDecoder._createComponent', file=F, qual='AbstractSimplePayloadDecoder._createComponent',
+    properties=['C10', 'C16', 'C12', 'C01'],
+    params=dict(self=PDerived(_cc_self), asn1Spec=PDerived(_cc_spec), tagSet=PConst(Obj('TagSet', {}, name='tagSet')),
+                value=PDerived(lambda ex, env: NOVALUE if ex.choose(z3.Bool('value.isNoValue'), 'no-value') else z3.Int('value')),
+                options=POptions(native=PBool())),
+    globals={'given': z3.Bool('spec.given'), 'noValue': NOVALUE, 'isNoValue': z3.Bool('value.isNoValue')},
+    ensures=[
+        # with a guide: a *new* object of the guide's type holding the value (the guide itself only when there is no value:
+        # substrate collectors get the schema) -- C12: decoding never hands out the guide loaded with a value
+        ('guided-value-is-a-clone-of-the-guide', '(given and not isNoValue and not options.get("native", False)) ==> '
+                                                 '(result.cloneOf is asn1Spec and result.value == value and result is not asn1Spec)'),
+        # without a guide: the codec's prototype retagged with the tags found on the wire (C16)
+        ('schemaless-value-carries-the-wire-tags', '((not given) and not options.get("native", False)) ==> '
+                                                   '(result.cloneOf is self.protoComponent and result.tagSet is tagSet)'),
+        ('native-mode-hands-out-the-python-value', 'options.get("native", False) ==> result is value')],
+    note='the model `create_component` used by the payload decoder contracts is this function')
+CONTRACTS = CONTRACTS + [CREATE_COMPONENT]
